@@ -112,7 +112,10 @@ fn c04(r: &mut Rng, i: u64, _p: &HashMap<String, String>) -> Vec<Value> {
             if depth < 3 && r.chance(1, 3) {
                 let name = *r.pick(&["em", "strong", "code", "span", "a", "i"]);
                 let kids = build(r, chunk, depth + 1);
-                out.push(if name == "a" { N::ela("a", vec![("href", "//0.0/1".to_string())], kids) } else { N::el(name, kids) });
+                let mut n = if name == "a" { N::ela("a", vec![("href", "//0.0/1".to_string())], kids) } else { N::el(name, kids) };
+                // (fragment markers: they have no width and must not change the layout)
+                if r.chance(1, 5) { n.add_attr(if name == "a" && r.chance(1, 2) { "name" } else { "id" }, format!("f{}", r.below(1000))); }
+                out.push(n);
             } else {
                 let t: String = chunk.concat();
                 if let Some(N::T(prev)) = out.last_mut() { prev.push_str(&t); } else { out.push(N::T(t)); }
@@ -123,10 +126,12 @@ fn c04(r: &mut Rng, i: u64, _p: &HashMap<String, String>) -> Vec<Value> {
     let inl = build(r, &pieces, 0);
     let kind = r.below(4);
     let deco = if kind >= 2 { "rich" } else { *r.pick(&["rich", "trivial"]) };
+    let mut para = N::el("p", inl);
+    if r.chance(1, 4) { para.add_attr("id", format!("p{}", r.below(1000))); }
     let (body, pw) = match kind {
-        2 => (vec![N::el("blockquote", vec![N::el("p", inl)])], 2u64),
-        3 => (vec![N::el("ul", vec![N::el("li", vec![N::el("p", inl)])])], 2),
-        _ => (vec![N::el("p", inl)], 0),
+        2 => (vec![N::el("blockquote", vec![para])], 2u64),
+        3 => (vec![N::el("ul", vec![N::el("li", vec![para])])], 2),
+        _ => (vec![para], 0),
     };
     let mut ops = vec![];
     let mut m: i64 = -1;
@@ -317,6 +322,7 @@ fn c13(r: &mut Rng, i: u64, p: &HashMap<String, String>) -> Vec<Value> {
 fn c15(r: &mut Rng, i: u64, p: &HashMap<String, String>) -> Vec<Value> {
     let opt = *r.pick(&["max_wrap", "pad", "strike", "noborders", "raw", "footnotes", "nolinkwrap", "min_wrap", "rawoff", "perm"]);
     let mut f = if r.chance(1, 2) { Feat::all() } else { Feat::notables() };
+    f.zero_only = false;     // (words without any width: see DESIGN.md section 9, outside this check's quantifier)
     // half of the documents have nothing the option applies to
     if r.chance(1, 2) {
         match opt { "strike" => f.strike = false, "footnotes" | "nolinkwrap" => f.links = false,
@@ -364,6 +370,7 @@ fn strip_ids(n: &N) -> N {
 /// C14: unique ids / anchor names on random elements; lines route, and string route with / without ids.
 fn c14(r: &mut Rng, i: u64, p: &HashMap<String, String>) -> Vec<Value> {
     let mut f = if r.chance(1, 4) { Feat::all() } else { Feat::notables() };
+    f.zero_only = false;     // (words without any width: see DESIGN.md section 9, outside this check's quantifier)
     f.ids = true;
     f.sup = r.chance(1, 4);
     f.stray = r.chance(1, 3);
@@ -385,6 +392,7 @@ fn c14(r: &mut Rng, i: u64, p: &HashMap<String, String>) -> Vec<Value> {
 /// cells; rich lines route + rich string route.
 fn c09(r: &mut Rng, i: u64, p: &HashMap<String, String>) -> Vec<Value> {
     let mut f = if r.chance(1, 3) { Feat::all() } else { Feat::notables() };
+    f.zero_only = false;     // (words without any width: see DESIGN.md section 9, outside this check's quantifier)
     f.ids = r.chance(1, 6);
     f.sup = r.chance(1, 3);
     f.linky = r.chance(1, 3);
@@ -669,7 +677,7 @@ fn c16(r: &mut Rng, i: u64, p: &HashMap<String, String>) -> Vec<Value> {
             }).collect()
         }
         1 => {
-            let mut f = if r.chance(1, 4) { Feat::all() } else { Feat::notables() };
+            let mut f = if r.chance(1, 4) { Feat::all() } else { Feat::notables() }; f.zero_only = false;
             f.sup = false;
             let mut g = G::new(r, f);
             let body = g.flow(0);
@@ -677,7 +685,7 @@ fn c16(r: &mut Rng, i: u64, p: &HashMap<String, String>) -> Vec<Value> {
             vec![json!({"id": id("c16", i), "meta": {"affix": 1}, "runs": [run(&doc_html(&body), w, c, "string")]})]
         }
         _ => {
-            let f = if r.chance(1, 3) { Feat::all() } else { Feat::notables() };
+            let mut f = if r.chance(1, 3) { Feat::all() } else { Feat::notables() }; f.zero_only = false;
             let mut g = G::new(r, f);
             let body = g.flow(0);
             let w = r.range(4, wmax(p, 80));
@@ -814,6 +822,38 @@ fn css_doc_html(style: &str, body: &[N]) -> String {
     s.push_str("</body></html>");
     s
 }
+/// The author sheet cut into several <style> elements (head, top level of the body, inside wrappers): their
+/// concatenation in document order is the author sheet.
+fn css_doc_html_split(r: &mut Rng, author: &Value, body: &[N]) -> String {
+    let rules: Vec<Value> = author.as_array().cloned().unwrap_or_default();
+    let k = r.range(2, 4) as usize;
+    let mut chunks: Vec<Vec<Value>> = vec![vec![]; k];
+    // cut points in order
+    let mut cuts: Vec<usize> = (0..k - 1).map(|_| r.below(rules.len() as u64 + 1) as usize).collect();
+    cuts.sort();
+    let mut ci = 0;
+    for (j, rl) in rules.into_iter().enumerate() { while ci < cuts.len() && j >= cuts[ci] { ci += 1; } chunks[ci].push(rl); }
+    let texts: Vec<String> = chunks.iter().map(|c| format!("<style>{}</style>", sheet_text(&Value::Array(c.clone()), r, &canonical()))).collect();
+    let nhead = r.below(3).min(k as u64) as usize;
+    let mut s = String::from("<html><head>");
+    for t in &texts[..nhead] { s.push_str(t); }
+    s.push_str("</head><body>");
+    // the rest goes into the body, in order, at non-decreasing positions; neighbours sometimes share a wrapper
+    let rest = &texts[nhead..];
+    let mut pos: Vec<usize> = rest.iter().map(|_| r.below(body.len() as u64 + 1) as usize).collect();
+    pos.sort();
+    let mut j = 0;
+    for at in 0..=body.len() {
+        let mut here: Vec<&String> = vec![];
+        while j < rest.len() && pos[j] == at { here.push(&rest[j]); j += 1; }
+        if here.len() >= 2 && r.chance(2, 3) { s.push_str("<div>"); for t in here { s.push_str(t); } s.push_str("</div>"); }
+        else if here.len() == 1 && r.chance(1, 4) { s.push_str("<section>"); s.push_str(here[0]); s.push_str("</section>"); }
+        else { for t in here { s.push_str(t); } }
+        if at < body.len() { body[at].html(&mut s); }
+    }
+    s.push_str("</body></html>");
+    s
+}
 fn rule(sels: Vec<Value>, decls: Vec<Value>) -> Value { json!({"sels": sels, "decls": decls}) }
 fn col_decl(c: Value, imp: bool) -> Value { json!({"prop": "color", "val": c, "imp": imp}) }
 
@@ -876,7 +916,10 @@ fn c19(r: &mut Rng, i: u64, p: &HashMap<String, String>) -> Vec<Value> {
         }
         Value::Array(rules)
     };
-    let agent = mk_sheet(r, &d, &mut k); let user = mk_sheet(r, &d, &mut k); let author = mk_sheet(r, &d, &mut k);
+    let agent = mk_sheet(r, &d, &mut k); let user = mk_sheet(r, &d, &mut k); let mut author = mk_sheet(r, &d, &mut k);
+    // (several <style> elements: a longer author sheet, cut up below)
+    let split = r.chance(1, 3);
+    if split { for _ in 0..2 { let more = mk_sheet(r, &d, &mut k); author.as_array_mut().unwrap().extend(more.as_array().cloned().unwrap()); } }
     // inline styles on some elements
     fn add_inline(r: &mut Rng, n: &mut N, k: &mut u64) {
         if let N::E(_, attrs, kids) = n {
@@ -890,7 +933,7 @@ fn c19(r: &mut Rng, i: u64, p: &HashMap<String, String>) -> Vec<Value> {
         }
     }
     for n in body.iter_mut() { add_inline(r, n, &mut k); }
-    let html = css_doc_html(&sheet_text(&author, r, &canonical()), &body);
+    let html = if split { css_doc_html_split(r, &author, &body) } else { css_doc_html(&sheet_text(&author, r, &canonical()), &body) };
     let mut ops = vec![];
     if agent.as_array().unwrap().len() > 0 { ops.push(json!(["agentcss", sheet_text(&agent, r, &canonical())])); }
     if user.as_array().unwrap().len() > 0 { ops.push(json!(["css", sheet_text(&user, r, &canonical())])); }
